@@ -20,6 +20,7 @@ pub enum Client {
     S(StrPair),
     R(Vec<(usize, usize, u32)>),
     B(BoxClient),
+    A(Option<allocator_api2::vec::Vec<u32, &'static Bump>>, Vec<u32>),
 }
 
 pub struct W2Report {
@@ -60,6 +61,7 @@ impl<'a> W2<'a> {
         match c {
             Client::S(_) => "C14",
             Client::B(_) => "C17",
+            Client::A(..) => "C12",
             Client::R(_) => "C13",
             _ => "C13",
         }
@@ -135,6 +137,18 @@ impl<'a> W2<'a> {
                     r
                 }
                 Client::B(p) => p.compare().map_err(|e| ("box-value-differs", e)),
+                Client::A(b, sv) => match b {
+                    Some(bv) => {
+                        if bv.as_slice() != sv.as_slice() {
+                            Err(("std-collection-in-arena-differs", format!("{:?} vs std {:?}", &bv[..bv.len().min(12)], &sv[..sv.len().min(12)])))
+                        } else if bv.capacity() < bv.len() {
+                            Err(("std-collection-in-arena-differs", "capacity below length".to_string()))
+                        } else {
+                            Ok(())
+                        }
+                    }
+                    None => Ok(()),
+                },
             };
             if let Err((what, detail)) = r {
                 let prop = Self::prop_of(&self.clients[i]);
@@ -197,6 +211,7 @@ impl<'a> W2<'a> {
             COp::S(o) => op_name(o),
             COp::R(o) => op_name(o),
             COp::B(o) => op_name(o),
+            COp::A(o) => op_name(o),
         };
         self.fp.mix(crate::rng::fnv(&name) ^ (ci as u64) << 56);
         let prop = Self::prop_of(&self.clients[ci]);
@@ -209,6 +224,7 @@ impl<'a> W2<'a> {
             (Client::VZt(p), COp::V(o)) => Some(p.exec(bump, o)),
             (Client::S(p), COp::S(o)) => Some(p.exec(bump, o)),
             (Client::B(p), COp::B(o)) => Some(p.exec(bump, o)),
+            (Client::A(b, sv), COp::A(o)) => Some(exec_avec(bump, b, sv, o)),
             (Client::R(blocks), COp::R(o)) => {
                 match o {
                     ROp::Alloc { size, align, seed } => {
@@ -333,6 +349,7 @@ pub fn exec_w2(script: &W2Script) -> W2Report {
             ClientKind::Str => Client::S(StrPair::new()),
             ClientKind::Raw => Client::R(Vec::new()),
             ClientKind::Boxes => Client::B(BoxClient::new()),
+            ClientKind::AVec => Client::A(None, Vec::new()),
         })
         .collect();
     let mut w = W2 {
@@ -370,6 +387,11 @@ pub fn exec_w2(script: &W2Script) -> W2Report {
                 Client::S(p) => p.drop_all(),
                 Client::R(b) => b.clear(),
                 Client::B(p) => p.drop_all(),
+                Client::A(b, sv) => {
+                    let x = b.take();
+                    let _ = b_call(move || drop(x));
+                    sv.clear();
+                }
             }
         }
         w.post_events("drop-containers", "C13");
@@ -408,4 +430,117 @@ pub fn exec_w2(script: &W2Script) -> W2Report {
         stats: w.stats,
         fp: w.fp.0,
     }
+}
+
+/// allocator_api2's Vec (a fork of std's) instantiated with `&Bump`, mirrored by std's Vec
+fn exec_avec(bump: &'static Bump, b: &mut Option<allocator_api2::vec::Vec<u32, &'static Bump>>, sv: &mut Vec<u32>, op: &AOp) -> OpOutcome {
+    use crate::w2_vec::{s_call, Ret};
+    type AV = allocator_api2::vec::Vec<u32, &'static Bump>;
+    if b.is_none() {
+        *b = Some(b_call(|| AV::new_in(bump)).expect("new_in"));
+        sv.clear();
+    }
+    if let AOp::Recreate(n) = op {
+        let old = b.take();
+        let _ = b_call(move || drop(old));
+        let n = (*n).min(2000);
+        let r = b_call(|| AV::with_capacity_in(n, bump));
+        sv.clear();
+        sv.shrink_to_fit();
+        return match r {
+            Ok(v) => {
+                let ok = v.capacity() >= n;
+                *b = Some(v);
+                OpOutcome { b: Ok(Ret::Flag(ok)), s: Ok(Ret::Flag(true)), extra: None }
+            }
+            Err(()) => OpOutcome { b: Err(()), s: Ok(Ret::Unit), extra: None },
+        };
+    }
+    if let AOp::IntoBoxedSliceAndBack = op {
+        let v = b.take().unwrap();
+        let r = b_call(move || {
+            let bx: allocator_api2::boxed::Box<[u32], &'static Bump> = v.into_boxed_slice();
+            let back: AV = bx.into_vec();
+            back
+        });
+        return match r {
+            Ok(v) => {
+                *b = Some(v);
+                OpOutcome { b: Ok(Ret::Unit), s: Ok(Ret::Unit), extra: None }
+            }
+            Err(()) => OpOutcome { b: Err(()), s: Ok(Ret::Unit), extra: None },
+        };
+    }
+    let bv = b.as_mut().unwrap();
+    let len = sv.len();
+    let (rb, rs) = match op {
+        AOp::Push(x) => (b_call(|| bv.push(*x)).map(|_| Ret::Unit), s_call(|| sv.push(*x)).map(|_| Ret::Unit)),
+        AOp::Pop => (b_call(|| bv.pop()).map(|o| Ret::Text(format!("{:?}", o))), s_call(|| sv.pop()).map(|o| Ret::Text(format!("{:?}", o)))),
+        AOp::Insert(p, x) => {
+            let i = p.at(len);
+            (b_call(|| bv.insert(i, *x)).map(|_| Ret::Unit), s_call(|| sv.insert(i, *x)).map(|_| Ret::Unit))
+        }
+        AOp::Remove(p) => {
+            let i = p.at(len);
+            (b_call(|| bv.remove(i)).map(|x| Ret::Num(x as u64)), s_call(|| sv.remove(i)).map(|x| Ret::Num(x as u64)))
+        }
+        AOp::Extend(n, x) => {
+            let n = (*n).min(3000);
+            let x = *x;
+            (
+                b_call(|| bv.extend((0..n as u32).map(|i| i.wrapping_mul(7).wrapping_add(x)))).map(|_| Ret::Unit),
+                s_call(|| sv.extend((0..n as u32).map(|i| i.wrapping_mul(7).wrapping_add(x)))).map(|_| Ret::Unit),
+            )
+        }
+        AOp::Truncate(p) => {
+            let n = p.at(len);
+            (b_call(|| bv.truncate(n)).map(|_| Ret::Unit), s_call(|| sv.truncate(n)).map(|_| Ret::Unit))
+        }
+        AOp::Reserve(n) => {
+            let n = (*n).min(5000);
+            let r = b_call(|| bv.reserve(n)).map(|_| Ret::Flag(bv.capacity() >= len + n));
+            (r, Ok(Ret::Flag(true)))
+        }
+        AOp::ReserveExact(n) => {
+            let n = (*n).min(5000);
+            let r = b_call(|| bv.reserve_exact(n)).map(|_| Ret::Flag(bv.capacity() >= len + n));
+            (r, Ok(Ret::Flag(true)))
+        }
+        AOp::ShrinkToFit => (b_call(|| bv.shrink_to_fit()).map(|_| Ret::Unit), Ok(Ret::Unit)),
+        AOp::ShrinkTo(n) => {
+            let n = *n;
+            (b_call(|| bv.shrink_to(n)).map(|_| Ret::Unit), Ok(Ret::Unit))
+        }
+        AOp::Clear => (b_call(|| bv.clear()).map(|_| Ret::Unit), s_call(|| sv.clear()).map(|_| Ret::Unit)),
+        AOp::Resize(p, x) => {
+            let n = p.at(len).min(len + 3000);
+            (b_call(|| bv.resize(n, *x)).map(|_| Ret::Unit), s_call(|| sv.resize(n, *x)).map(|_| Ret::Unit))
+        }
+        AOp::Dedup => (b_call(|| bv.dedup()).map(|_| Ret::Unit), s_call(|| sv.dedup()).map(|_| Ret::Unit)),
+        AOp::SplitOff(p) => {
+            let at = p.at(len);
+            (
+                b_call(|| {
+                    let t = bv.split_off(at);
+                    Ret::Text(format!("{:?}", &t[..]))
+                }),
+                s_call(|| {
+                    let t = sv.split_off(at);
+                    Ret::Text(format!("{:?}", &t[..]))
+                }),
+            )
+        }
+        AOp::CloneCmp => (
+            b_call(|| {
+                let c = bv.clone();
+                Ret::Text(format!("{:?}", &c[..c.len().min(40)]))
+            }),
+            s_call(|| {
+                let c = sv.clone();
+                Ret::Text(format!("{:?}", &c[..c.len().min(40)]))
+            }),
+        ),
+        AOp::Recreate(_) | AOp::IntoBoxedSliceAndBack => unreachable!(),
+    };
+    OpOutcome { b: rb, s: rs, extra: None }
 }
